@@ -2231,3 +2231,77 @@ func ruleForwardedValueDelivered(r *Run, rule string) {
 		}
 	}
 }
+
+// ruleFlushResetsCompletionFlags (R03.27 / R09.8): a bool field that a unit's emptiness
+// predicate reads and that the unit raises while it works (fetch complete, ret seen) is
+// lowered by the unit's flush: after a flush the unit works again, and a predicate that still
+// answers "done" lets the run end while the refilled pipeline holds instructions.
+func ruleFlushResetsCompletionFlags(r *Run, rule string) {
+	w := r.W
+	for _, v := range variants(w) {
+		if v.pkg == nil || !v.pipelined() {
+			continue
+		}
+		seen := map[*types.Named]bool{}
+		for _, f := range v.fields {
+			if !f.isUnit || f.unitT == nil || seen[f.unitT] {
+				continue
+			}
+			seen[f.unitT] = true
+			T := f.unitT
+			ie, fl := hasDeclMethod(T, "isEmpty"), hasDeclMethod(T, "flush")
+			if ie == nil || fl == nil {
+				continue
+			}
+			ifd, ipk := w.FuncDecl(ie)
+			ffd, fpk := w.FuncDecl(fl)
+			if ifd == nil || ffd == nil || ifd.Body == nil || ffd.Body == nil {
+				continue
+			}
+			read := map[*types.Var]bool{}
+			ast.Inspect(ifd.Body, func(n ast.Node) bool {
+				if sel, ok := n.(*ast.SelectorExpr); ok {
+					if s := ipk.TypesInfo.Selections[sel]; s != nil && s.Kind() == types.FieldVal && typeName(s.Obj().Type()) == "bool" {
+						read[s.Obj().(*types.Var)] = true
+					}
+				}
+				return true
+			})
+			assignedIn := func(fd *ast.FuncDecl, info *types.Info, fv *types.Var, val string) bool {
+				found := false
+				ast.Inspect(fd.Body, func(n ast.Node) bool {
+					if as, ok := n.(*ast.AssignStmt); ok && len(as.Lhs) == 1 && len(as.Rhs) == 1 {
+						if sel, ok := ast.Unparen(as.Lhs[0]).(*ast.SelectorExpr); ok {
+							if s := info.Selections[sel]; s != nil && s.Obj() == fv {
+								if tv := info.Types[as.Rhs[0]]; tv.Value != nil && tv.Value.String() == val {
+									found = true
+								}
+							}
+						}
+					}
+					return true
+				})
+				return found
+			}
+			var flds []*types.Var
+			for fv := range read {
+				flds = append(flds, fv)
+			}
+			sort.Slice(flds, func(i, j int) bool { return flds[i].Name() < flds[j].Name() })
+			for _, fv := range flds {
+				raised := false
+				for i := 0; i < T.NumMethods(); i++ {
+					if mfd, mpk := w.FuncDecl(T.Method(i)); mfd != nil && mfd.Body != nil && mfd != ffd {
+						if assignedIn(mfd, mpk.TypesInfo, fv, "true") {
+							raised = true
+						}
+					}
+				}
+				if !raised {
+					continue
+				}
+				r.check(assignedIn(ffd, fpk.TypesInfo, fv, "false"), rule, fmt.Sprintf("%s.(%s).flush:lowers(%s)", v.rel, T.Obj().Name(), fv.Name()), ffd.Pos(), "the flag %s, which the emptiness predicate of %s reads and the unit raises while it works, is lowered by the unit's flush", fv.Name(), T.Obj().Name())
+			}
+		}
+	}
+}
